@@ -256,7 +256,50 @@ func c11(r *core.Run) {
 				"a chunk's 'already existed' flag is the data-index test or the in-call duplicate test", "an exists flag is set from something else than putRequest/putUpload's result or the containsChunk test")
 		})
 		r.Floor("C11.G1", "exist[i] assignments in put", nst, 4)
+		// P5: the in-call duplicate test looks at ALL chunks before the current one:
+		// containsChunk(chs[i].Address(), chs[:i]...) — the window is the slice of the
+		// call's own chunks from 0 up to the loop position, and the store helper runs only
+		// when it found none. A shorter window (the preceding chunk only) stores a
+		// non-adjacent repeat a second time and reports it as new.
+		_, notDup := core.AtomEdges(put, core.BoolCallAtom(func(c *ssa.Call) bool { return core.IsCallTo(c, lsPkg+".containsChunk") }))
+		nwin := 0
+		for _, c := range core.Calls(put, lsPkg+".containsChunk") {
+			nwin++
+			args := core.Common(c).Args
+			okWin := false
+			if sl, ok := core.Forward(args[len(args)-1]).(*ssa.Slice); ok {
+				_, isParam := sl.X.(*ssa.Parameter)
+				lowZero := sl.Low == nil
+				if k, isC := core.ConstInt(sl.Low); sl.Low != nil && isC && k == 0 {
+					lowZero = true
+				}
+				// the upper bound is the position of the chunk being looked up
+				upper := false
+				if sl.High != nil {
+					if ac, _ := core.CallOf(args[0]); ac != nil {
+						recv := core.Forward(core.CallArgs(&ac.Call)[0])
+						if mi, ok := recv.(*ssa.MakeInterface); ok {
+							recv = core.Forward(mi.X)
+						}
+						if p, ok := core.LoadedFrom(recv); ok {
+							if ia, ok := p.(*ssa.IndexAddr); ok && ia.X == sl.X && ia.Index == sl.High {
+								upper = true
+							}
+						}
+					}
+				}
+				okWin = isParam && lowZero && upper
+			}
+			r.Check("C11.P5", lsKey("C11.P5", put, "duplicate test over chs[:i]"), c.Pos(), okWin,
+				"the in-call duplicate test compares chunk i with every earlier chunk of the call (chs[:i])", "the duplicate test of put does not look at chs[:i] for the chunk chs[i]: a repeat that is not inside the window is stored again and reported as new, unlike one-at-a-time puts")
+		}
+		for _, c := range core.Calls(put, "(*"+lsPkg+".DB).putRequest", "(*"+lsPkg+".DB).putUpload") {
+			r.Check("C11.P5", lsKey("C11.P5", put, "store helper only for a chunk not seen earlier in the call"), c.Pos(), len(notDup) > 0 && core.OnlyBehind(put, c, notDup),
+				"putRequest / putUpload run only when the duplicate test found no earlier chunk with the address", "a chunk repeated inside one call reaches the store helper again")
+		}
+		r.Floor("C11.P5", "in-call duplicate tests in put", nwin, 2)
 	}
+	staleDataIndexRead(r, "C11.B2")
 	// P2: the in-call duplicate test is by ADDRESS (the store is content-addressed by the
 	// address alone: a second chunk with the same address is "already there" whatever its
 	// bytes, exactly as the data-index test would say one call later)
@@ -708,6 +751,8 @@ func c13(r *core.Run) {
 	dirtyLogRule(r, "C13.G3")
 	readModifyWriteAtomic(r, "C13.Lk2")
 	gcCounterProvenance(r, "C13.P2")
+	gcCounterFreshRead(r, "C13.Lk3")
+	gcForceCleanGuard(r, "C13.G4")
 }
 
 // rmwRule: the batch read-modify-write rule (see Meta of C13). only == nil: every helper and
